@@ -21,9 +21,9 @@ ID = "C20"
 LEVEL = "exploration"
 RULE = (
     "journeys: 1-3 exponent tuples over 1-3 names drawn from {0..600} + powers of two +-1 up to 1e5 + boundaries (68/69, 196/197, "
-    "255/256, 55236..57300, 65476/65477) through a seeded sequence of stages {struct view round trip, align, *, **, derivative, "
+    "255/256, 55236..57300, 65476/65477) through a seeded sequence of stages {struct view round trip, align, *, ** (also an array of powers), derivative, "
     "evaluation at 1 / symbol swap, pickle, savetxt->loadtxt on {text stream, bytes stream, path} x locale {utf-8, latin-1, ascii} "
-    "x write fault}; range sweeps: every exponent value of a window encoded/decoded through construction (thorough: the whole "
+    "x write fault}, some with int32/int16 coefficients and some under a HeapSeam fill pattern; range sweeps: every exponent value of a window encoded/decoded through construction (thorough: the whole "
     "representable range below 1 114 052), and (sum of q0**a) * q0**b for every a+b<=600. Distinct non-trivial = distinct "
     "(stage, exponent tuple set, environment) with an exponent >= 69 (outside the one-byte/ASCII key range)."
 )
